@@ -480,6 +480,19 @@ def check_dirty(res, lib):
         return outs
 
     ops = [('write_str', s) for s in text_shapes()] + [('writeln_str', s) for s in text_shapes()]
+    # the trait front ends of the same writer (`core::fmt::Write`, ufmt): `write_str` must behave like the inherent one,
+    # `write_char(c)` like writing the one-character text c
+    CHARS = [('chr', 'LF', const_int(10)), ('chr', 'CR', const_int(13)), ('chr', 'x', mk_int(x for x in range(0x20, 0x7F)))]
+    for k, f in base.public_api(lib):
+        if k != 'writer' or f.impl_trait is None or f.body['arg_count'] != 2:
+            continue
+        pty = f.body['locals'][2]['ty']
+        if f.name == 'write_str' and pty.get('k') == 'ref' and pty['to'].get('k') == 'str':
+            wr[f.npath] = f
+            ops += [(f.npath, s) for s in text_shapes()]
+        elif f.name == 'write_char' and pty.get('k') == 'char':
+            wr[f.npath] = f
+            ops += [(f.npath, c) for c in CHARS]
     start = (init, False)
     seen = {start: ()}
     work = [start]
@@ -500,18 +513,25 @@ def check_dirty(res, lib):
                 if f is None:
                     raise KeyError("Writer::%s not found" % opn)
                 I = Interp([lib], rule)
-                exits = I.run(f, [('ref', (-1, 0, ())), shape], shape, {(-1, 0): state})
-                if opn == 'writeln_str':
-                    nref = False
-                elif shape[1] == 0 and shape[2][0] == 'E':
-                    nref = ref_dirty
+                if shape[0] == 'chr':
+                    exits = I.run(f, [('ref', (-1, 0, ())), shape[2]], None, {(-1, 0): state})
+                    nref = shape[1] != 'LF'
                 else:
-                    nref = shape[2][0] != 'E'
+                    exits = I.run(f, [('ref', (-1, 0, ())), shape], shape, {(-1, 0): state})
+                    if opn == 'writeln_str':
+                        nref = False
+                    elif shape[1] == 0 and shape[2][0] == 'E':
+                        nref = ref_dirty
+                    else:
+                        nref = shape[2][0] != 'E'
                 for w, rv in exits:
+                    if ret_is_err(rv):
+                        continue          # the sink failed: the call reports it (C14); the flag is moot
                     ns = w.store[(-1, 0)]
                     np_ = (ns, nref)
                     if np_ not in seen:
-                        seen[np_] = word + ("%s(%s)" % (opn, shape_name(shape)),)
+                        seen[np_] = word + ("%s(%s)" % (opn.split('::')[-1] if '::' in opn else opn,
+                                                          shape_name(shape) if shape[0] != 'chr' else {'LF': "'\\n'", 'CR': "'\\r'", 'x': "'a'"}[shape[1]]),)
                         nxt.append(np_)
                         if len(seen) > 3000:
                             raise Inconclusive("Writer state space exceeds 3000")
